@@ -62,6 +62,14 @@ CHECKS = {
                 technique="seam observation under the simulated PRNG (no schedule or fault: the fake PRNG is where the calibrated probabilities and scales are visible exactly); repeated-call histories on the caller's objects",
                 text="every selection primitive (Mechanism.exponential_mechanism array/dict/base-measure, mst and adaptive_grid exponential_mechanism incl. monotonic and eps=inf, MWEM worst_approximated bounded/penalty) is called with the SimRNG on its prng seam; the p= vector it hands to choice() is compared in log space with the definition evaluated in extended precision, for score magnitudes up to 1e6, ties, constant shifts, dicts built in different insertion orders and 1-3 calls on the same caller arrays (which must stay unmodified); scale helpers and samplers are checked by the (loc, scale, size) they pass on.",
                 note="least simulation-like check (DESIGN.md Engine G): the quantifier is over inputs and short call histories; autodp is stubbed (sentinel sigma)"),
+    "C16": dict(engine="local-oracle", ref="3 (Engine F)",
+                technique="deterministic simulation: call histories on one oracle object with warm messages, changing total and sweep counts, permuted GBP tie-order and hash seeds; brute-force oracle on acyclic structures",
+                text="RegionGraph(convex=False) and FactorGraph(convex=False) objects are driven through 1-4 belief_propagation calls with unrelated potentials (messages persist), total reassigned between calls, sweep counts from 1 upward and the GBP sweep tie-order permuted inside equal-length blocks. After every call all pseudo-marginals must be finite, non-negative and sum to total; on junction-tree structured clique sets (GBP) and tree factor graphs (loopy BP) they must equal the brute-force marginals after enough sweeps, from cold and from warm messages.",
+                note="finite potentials only; potentials on intersection regions are a separate signature (known finding F9)"),
+    "C18": dict(engine="local-oracle", ref="3 (Engine F)",
+                technique="deterministic simulation: LocalInference estimator-reuse histories over oracles and iteration counts that select restart / damping / post-iteration paths; validity invariants and closed-form optimum on disjoint cliques",
+                text="LocalInference.estimate for oracles convex / approx / pairwise, 1-2 calls per estimator object (warm start on/off), iteration counts 1..300: no exception, every measured clique's table finite, non-negative and summing to total, loss no worse than the uniform start, primal feasibility < 1.0 with the convex oracle, and on pairwise-disjoint cliques the loss must reach the closed-form optimum (escalated x4, x16 before reporting).",
+                note="three open known findings (F6, F10, F11) cover the no-worse-than-uniform, recursion and stall clauses on the unchanged tree; Q=None is not passed (LocalInference has no fix_measurements)"),
     "C02": dict(engine="query-hist", ref="3 (Engine B)",
                 technique="deterministic simulation: generated query/cache/save-load histories with I/O fault injection, refinement against the explicit joint",
                 text="seeded histories of project / calculate_many_marginals / krondot / datavector / save+load on one model object (direct parameters or returned by estimate); after every operation the answer is compared with the explicit joint in the requested axis order; save/load goes through an in-memory file system that injects write errors, lost tails and read errors.",
